@@ -173,7 +173,7 @@ def position_error(s, outcome):
 
 # ---------------------------------------------------------------- grammar-generated expressions over a table
 
-def gen_expression(rng, T, depth=3, unknown_ratio=0.3):
+def gen_expression(rng, T, depth=3, unknown_ratio=0.3, unknown_words=None, case_unknown=False):
     """
     Returns (text, expected encoded tree, ok) where ok is False when a known name occurs across an
     operand boundary or inside an unknown operand (the "part of a known name" proviso): such cases
@@ -188,7 +188,10 @@ def gen_expression(rng, T, depth=3, unknown_ratio=0.3):
             name, i = rng.choice(names)
             k, _, ex = T[i]
             return gen.vary_name(rng, name), ('known', i), [enc_str(k), 1 if ex else 0]
-        ws = [rng.choice(gen.UNKNOWN_WORDS) for _ in range(rng.choice([1, 1, 2, 3]))]
+        ws = [rng.choice(unknown_words or gen.UNKNOWN_WORDS) for _ in range(rng.choice([1, 1, 2, 3]))]
+        if case_unknown:
+            # the same unknown words come back in other letter cases within one expression: each occurrence keeps its own spelling
+            ws = [gen.vary_case(rng, w) for w in ws]
         text = ws[0]
         for w in ws[1:]:
             text += gen.gen_ws(rng, 1, 2) + w
